@@ -919,7 +919,7 @@ func doOverflowWitness(t *testing.T, run *emit.Run, p *pool) {
 		}()
 		_, _, _ = e.evm.PickValidatorForMessage(e.ctx, sc.chain, nil)
 	}()
-	run.Count("ranking-overflow", map[bool]string{true: "panic-witnessed (governance-set weights 10^77)", false: "no-panic"}[panicked])
+	run.Count("ranking-overflow", map[bool]string{true: "panic-witnessed (weights 10^77 refused by SetRelayWeights, written raw through the hook)", false: "no-panic"}[panicked])
 	doPick(t, run, p, sc, "overflow-witness")
 }
 
